@@ -8,3 +8,4 @@ open Fzf.Props.C08
 #print axioms C08_merger_cache_transparent
 #print axioms C08_quiescent_shows_current
 #print axioms C08_converges
+#print axioms C08_reaches_rest
